@@ -331,15 +331,36 @@ def _check_round(repo, r4, rnd):
         if not (isinstance(v, ast.Call) and isinstance(v.func, ast.Attribute) and v.func.attr == "get_higher_bits" and len(v.args) == 1 and
                 isinstance(v.args[0], ast.Name) and v.args[0].id == op_):
             okr = False
-    r4.require(okr, rnd, "round truncates to the requested width", "BitwiseFFX.round no longer returns result.get_higher_bits(output_len)")
-    wide = True
+    wide = okr
     for n in rets:
+        if not okr:
+            break
         v = n.stmt.value
         recv = v.func.value if isinstance(v, ast.Call) and isinstance(v.func, ast.Attribute) else None
         rn = unparse(recv) if recv is not None else "?"
         if not F.one_of(n.id, [(("<", "len(%s)" % rn, op_), False)]):
             wide = False
-    r4.require(wide and bool(rets), rnd, "round accumulates until wide enough", "BitwiseFFX.round leaves its accumulation loop before len(result) >= output_len")
+    if okr and wide:
+        r4.ok({"round": "get_higher_bits(%s) of an accumulation left only when len(result) >= %s" % (op_, op_)})
+        r4.ok({"round": "returns exactly the requested width"})
+    else:
+        # another spelling: decide "exactly output_len bits, all of them keyed MAC output" by abstract interpretation on a grid
+        from .. import macwidth
+        try:
+            ok_w, what = macwidth.full_width_round(rnd.node, kp, sp, op_)
+        except macwidth.GiveUp as e:
+            ok_w, what = None, str(e)
+        if ok_w:
+            r4.ok({"round": "abstract interpretation: exactly %s bits of keyed MAC output" % op_, "grid points": what})
+            r4.ok({"round": "returns exactly the requested width"})
+        elif ok_w is None:
+            r4.fail_fn(rnd, rnd.node, "round truncates to the requested width",
+                       "BitwiseFFX.round no longer returns result.get_higher_bits(output_len) of an accumulation that is at least that wide, and its new form is not "
+                       "understood (%s)" % what)
+        else:
+            r4.fail_fn(rnd, rnd.node, "round returns full-width MAC output",
+                       "BitwiseFFX.round: %s; a round function that is constant (or partly constant) makes the Feistel network independent of the key on narrow domains "
+                       "- with an even number of rounds it is the identity" % what)
     # default width: when output_len == 0 it becomes len(s)
     dflt = False
     for n in cfg.nodes:
@@ -469,5 +490,7 @@ VARIANTS = [
     V("luby-rackoff-two-rounds", "fire", "R15.6", [(LR, "LubyRackoffPRP.__call__", "for i in range(3):", "for i in range(2):")]),
     V("luby-rackoff-round-leaks-left", "fire", "R15.6", [(LR, "LubyRackoffPRP.__call__",
       "bytes_xor(curr_left, self.underlying_prf(key_list[i], curr_right))", "bytes_xor(curr_left, self.underlying_prf(key_list[i], curr_left))")]),
+    V("round-bytes-floor", "fire", "R15.4", [(FPE, "BitwiseFFX.round", "        output_len_per_hash = int(self.digest_size * 8)\n        i = 0\n        result = Bitset(0b0, 0)\n        while True:\n            h = hmac.new(key, pre + struct.pack('I', i), self.digest_mod)\n            d = Bitset(int(h.hexdigest(), 16), output_len_per_hash)\n            result = result + d\n            if len(result) >= output_len:\n                break\n\n        return result.get_higher_bits(output_len)\n", "        digest = hmac.new(key, pre + struct.pack('I', 0), self.digest_mod).digest()\n        nbytes = output_len // 8\n        stream = digest * (nbytes // self.digest_size + 1)\n        return Bitset(int.from_bytes(stream[:nbytes], 'big'), output_len)\n")]),
+    V("benign-round-bytes-ceil-shift", "silent", None, [(FPE, "BitwiseFFX.round", "        output_len_per_hash = int(self.digest_size * 8)\n        i = 0\n        result = Bitset(0b0, 0)\n        while True:\n            h = hmac.new(key, pre + struct.pack('I', i), self.digest_mod)\n            d = Bitset(int(h.hexdigest(), 16), output_len_per_hash)\n            result = result + d\n            if len(result) >= output_len:\n                break\n\n        return result.get_higher_bits(output_len)\n", "        digest = hmac.new(key, pre + struct.pack('I', 0), self.digest_mod).digest()\n        nbytes = (output_len + 7) // 8\n        stream = digest * (nbytes // self.digest_size + 1)\n        return Bitset(int.from_bytes(stream[:nbytes], 'big') >> (8 * nbytes - output_len), output_len)\n")]),
     V("benign-rename-temp", "silent", None, [(FPE, "BitwiseFFX.encrypt", "            c = a ^ self.round(key, i, b, len(a))\n            a, b = b, c", "            nxt = a ^ self.round(key, i, b, len(a))\n            a, b = b, nxt")]),
 ]
